@@ -10,4 +10,6 @@ let find (id : string) : sx -> sx =
   | "C01" -> model_C01
   | "C04" | "C15" | "C12" | "C13" | "C09" -> model_TOK
   | "C05" -> model_C05
+  | "C06" -> model_C06
+  | "C07" -> model_C07
   | _ -> failwith ("no extracted model for " ^ id)
